@@ -70,6 +70,7 @@ class TcpConnection(object):
         self.__socket = socket
         self.__readBuffer = bytes()
         self.__writeBuffer = bytes()
+        self.__peerClosed = False
         self.__lastReadTime = monotonicTime()
         self.__timeout = timeout
         self.__poller = poller
@@ -127,6 +128,7 @@ class TcpConnection(object):
         self.__socket.setblocking(0)
         self.__readBuffer = bytes()
         self.__writeBuffer = bytes()
+        self.__peerClosed = False
         self.__lastReadTime = monotonicTime()
 
         try:
@@ -174,6 +176,7 @@ class TcpConnection(object):
             self.__fileno = None
         self.__writeBuffer = bytes()
         self.__readBuffer = bytes()
+        self.__peerClosed = False
         self.__state = CONNECTION_STATE.DISCONNECTED
         if needCallDisconnect:
             self.__onDisconnected()
@@ -237,6 +240,9 @@ class TcpConnection(object):
                 if self.__state == CONNECTION_STATE.DISCONNECTED or self.__socket is not sock:
                     return
 
+            if self.__peerClosed:
+                self.disconnect()
+
     def __processConnectionTimeout(self):
         if monotonicTime() - self.__lastReadTime > self.__timeout:
             self.disconnect()
@@ -282,7 +288,9 @@ class TcpConnection(object):
             self.disconnect()
             return False
         if not incoming:
-            self.disconnect()
+            # orderly end of the stream: what the peer sent before it closed is in the buffer and is still
+            # delivered; the caller disconnects afterwards
+            self.__peerClosed = True
             return False
         self.__readBuffer += incoming
         return True
